@@ -15,7 +15,7 @@ seen=[]
 for i in re.findall(r'C\d\d(?= quick)', m['detected_by']):
     if i not in seen: seen.append(i)
 print(' '.join(seen[:3]))")
-  r=$(./seedtest.sh $d $checks 2>&1)
+  r=$(VERIF_WORKERS=4 ./seedtest.sh $d $checks 2>&1)
   if echo "$r" | grep -q "does not apply"; then echo "$name STALE-PATCH"; return; fi
   s="suite-ok"; echo "$r" | grep -q "suite with change: PASS" || s="SUITE-FAILS"
   dm="demo-fails-with-change"; echo "$r" | grep -q "demo with change: FAIL" || dm="DEMO-PASSES-WITH-CHANGE"
